@@ -67,7 +67,7 @@ CLAIMED["C07"] = {
              "does not; (2) each of the 3 do_rollback sites is followed on every path by the termination undo with the causing message's timestamp; "
              "(3) over all models of the vote guard's atoms a thread votes only if (counter == 0 and max time strictly below GVT) or GVT >= "
              "termination time; (4) the termination message is broadcast only under fetch_sub(thr_to_end) == 1 or by RootsimStop, the node counter "
-             "has two writers, and the worker loop re-reads it atomically. NOT decided: that the recorded predicate value was computed on a committed state."),
+             "has two writers, and the worker loop re-reads it atomically; (5) a vote is cast once (termination_on_gvt interpreted twice in a row). NOT decided: that the recorded predicate value was computed on a committed state."),
     "note": TRUST + " Valid event timestamps are taken to lie in [0, SIMTIME_MAX].",
 }
 
@@ -90,7 +90,9 @@ CLAIMED["C04"] = {
              "GVT; both collectives are entered only on the equality side of an RMW-result test; the reduction across ranks is MPI_MIN over one "
              "MPI_DOUBLE per rank and the message count is MPI_SUM over one MPI_UINT32_T per rank, with the C types of the buffers, separate "
              "non-automatic buffers, and each *_done sibling testing the request its reduction started; for 1..8 threads the node-level minimum "
-             "equals the smallest local minimum wherever it sits, and for 1..8 ranks the send counts are accumulated for every rank. NOT decided: monotonicity and safety of the "
+             "equals the smallest local minimum wherever it sits, and for 1..8 ranks the send counts are accumulated for every rank; the node-level "
+             "bookkeeping balances (snapshot of the send counters covers every rank, +1 per thread and -(expected + threads) on the received counter, "
+             "the elected thread waits for all, the last state resets both automata, successor states by enumerator value). NOT decided: monotonicity and safety of the "
              "computed value under all interleavings of the reduction with message traffic, nor its equality across ranks."),
     "note": TRUST + " Floors are derived from the plain data each counter publishes; relaxed counters have no floor.",
 }
@@ -190,7 +192,8 @@ CLAIMED["C08"] = {
              "ranks the control-message broadcast sends one notice to every rank, and for 1..8 threads one worker is started per thread id and all are "
              "joined before the global finalisation; for 1..8 ranks x 1..8 threads the shares of total_sent[] the threads zero after a message "
              "count cover every rank's entry (a stale entry makes a rank wait forever); lp_global_init, interpreted for 1..12 LPs x 1..8 ranks, leaves no "
-             "rank without a worker thread or refuses to start; every rank sends its GVT_DONE notice to the one rank that opens rounds. NOT "
+             "rank without a worker thread or refuses to start; exactly one thread of one rank opens GVT rounds, only when the previous round was "
+             "acknowledged by every rank, and every rank sends its GVT_DONE notice to that rank; the node-level round bookkeeping balances (C04.11). NOT "
              "decided: liveness under all interleavings of the last vote or a stop request with an open GVT round, MPI progress, spin-loop bounds."),
     "note": TRUST,
 }
@@ -268,7 +271,8 @@ CLAIMED["C02"] = {
              "but the end-of-list and identity tests decides 'not found') and every remote event is checked against "
              "the early anti-messages before processing; cancelled remote buffers are released at GVT only; routing uses lid_to_nid; every MPI "
              "point-to-point call sends, sizes and receives bytes on MPI_COMM_WORLD, the polling receivers and the blocking data exchange use "
-             "separate tags that their senders match, polling accepts any source, and MPI_THREAD_MULTIPLE is requested and tested."),
+             "separate tags that their senders match, polling accepts any source, and MPI_THREAD_MULTIPLE is requested and tested; an event is sent as "
+             "header + payload bytes for every payload size and the receiver derives the payload size by the inverse arithmetic."),
     "note": TRUST + " MPI's non-overtaking and progress guarantees are assumed, not checked.",
 }
 
